@@ -3,7 +3,7 @@
     Life/ContFlag.v.
 
     Model: Life/Model.v (the lifecycle LTS; nextline/continuous.py after the
-    `fix:` commit).  [cont_plugins s : list (nat * bool)] = the registered
+    `fix:` commits, including Continuous.close() publishing False first).  [cont_plugins s : list (nat * bool)] = the registered
     [Continue] plugins as (requesting task, run started); a plugin [(_, true)]
     is one that answers prompts ([_run_started]).  [run_cont s] = the run in
     progress was requested by run_and_continue / run_continue_and_wait (the
@@ -65,16 +65,44 @@ Theorem C16_flag : forall stmt start th md ls,
 Proof. exact flag_reachable. Qed.
 
 (** a refused continue request (MachineError out of the API call): its plugin
-    is gone and the flag published last is false unless another request is
-    still pending or running *)
+    is gone; while the continuous item is open the flag is re-published (false
+    unless another request is still pending or running); once the item is closed
+    the flag stays off and nothing is published *)
 Theorem C16_refused_restores : forall stmt start th md ls l t c,
   let s := run_labels (init_state stmt start th md) ls in
   let s' := step s l in
   is_cont c = true -> In (EvRet t c RMachineError) (appended s s') ->
   ~ In (t, false) (cont_plugins s') /\
-  enabled_of (trace s') = Some (nonempty (cont_plugins s')) /\
-  (cont_plugins s' = [] -> enabled_of (trace s') = Some false).
+  (cont_closed s' = false -> enabled_of (trace s') = Some (nonempty (cont_plugins s'))) /\
+  (cont_closed s' = true -> enabled_of (trace s') = Some false) /\
+  (cont_plugins s' = [] -> enabled_of (trace s') = Some false) /\
+  (cont_closed s = true -> forall b, ~ In (EvPub (PCont b)) (appended s s')).
 Proof. exact refused_reachable. Qed.
+
+(** what the repair of Continuous.close() buys: once the continuous item is
+    closed the flag is off -- the last value published on it is [false] -- in
+    every reachable state, whatever requests were pending behind the close *)
+Theorem C16_closed_flag_off : forall stmt start th md ls,
+  let s := run_labels (init_state stmt start th md) ls in
+  cont_closed s = true -> enabled_of (trace s) = Some false.
+Proof. exact flag_closed. Qed.
+
+(** a continue request that was waiting for the lock when the object got closed
+    is refused with MachineError (not RuntimeError) as soon as it is given the
+    lock; that step appends the return and nothing else, its plugin is removed *)
+Theorem C16_refused_after_close : forall stmt start th md ls t c,
+  let s := run_labels (init_state stmt start th md) ls in
+  cont_closed s = true -> is_cont c = true -> find_task (tasks s) t = Some (c, Granted1) ->
+  let s' := step s (Step t) in
+  trace s' = EvRet t c RMachineError :: trace s /\
+  ~ In (t, false) (cont_plugins s') /\ find_task (tasks s') t = None /\ cont_closed s' = true.
+Proof. exact refused_after_close. Qed.
+
+(** no step from a closed state publishes on the flag *)
+Theorem C16_closed_silent : forall stmt start th md ls l b,
+  let s := run_labels (init_state stmt start th md) ls in
+  cont_closed s = true -> ~ In (EvPub (PCont b)) (appended s (step s l)).
+Proof. exact closed_step_silent. Qed.
 
 (** the step in which the run task performs on_finished: every started plugin
     has unregistered itself, the others stay, and the flag follows *)
@@ -169,6 +197,35 @@ Example C16_example_nonvacuous :
     (6%nat, CClose, ROk); (7%nat, CRunCont, RRuntimeError)]).
 Proof. vm_compute. repeat split; reflexivity. Qed.
 
+
+(** The repaired defect: a continuous run in progress, close() waiting for it,
+    one more run_and_continue pending behind the close.  The run finishes (flag
+    still true: request 3 pending), close() publishes false and closes the item,
+    request 3 is then refused with MachineError and publishes nothing. *)
+Definition ex_q1 : list label :=
+  [Call 0 CStart; Step 0; Step 0; Step 0;
+   Call 1 CRunCont; StepRun; StepRun; StepRun; Step 1; Step 1;
+   Call 2 CClose; Call 3 CRunCont].
+Definition ex_q2 : list label :=
+  [ChildExit OReturn; StepRun; StepRun; StepRun; StepRun; Step 2; Step 2; Step 2].
+
+Example C16_example_close_pending :
+  let s1 := run_labels ex_i ex_q1 in
+  let s2 := run_labels s1 ex_q2 in
+  let s3 := step s2 (Step 3) in
+  (tasks s1 = [(2%nat, (CClose, C_WaitRunFinished)); (3%nat, (CRunCont, WaitLock1))] /\
+   runt s1 = Some RT_WaitChild /\ cont_plugins s1 = [(1%nat, true); (3%nat, false)]) /\
+  (cont_closed s2 = true /\ tasks s2 = [(3%nat, (CRunCont, Granted1))] /\
+   cont_plugins s2 = [(3%nat, false)] /\ enabled_of (trace s2) = Some false) /\
+  (appended s2 s3 = [EvRet 3 CRunCont RMachineError] /\ cont_plugins s3 = [] /\ tasks s3 = [] /\
+   rev (cpubs (trace s3)) = [false; true; true; true; false] /\
+   skipn 8 (pubs_of (history s3)) =
+     [PEndAll; PCont true; PRunInfo 1 RFinished 7 (Some OReturn); PCont true;
+      PState Finished; PState Closed; PCont false; PEndCont] /\
+   rev (rets_of (trace s3)) =
+     [(0%nat, CStart, ROk); (1%nat, CRunCont, ROk); (2%nat, CClose, ROk); (3%nat, CRunCont, RMachineError)]).
+Proof. vm_compute. repeat split; reflexivity. Qed.
+
 Print Assumptions C16_cont_inv.
 Print Assumptions C16_at_most_one_started.
 Print Assumptions C16_started_only_in_own_run.
@@ -180,4 +237,8 @@ Print Assumptions C16_closed.
 Print Assumptions C16_closed_request.
 Print Assumptions C16_registered.
 Print Assumptions C16_flag_exact.
+Print Assumptions C16_closed_flag_off.
+Print Assumptions C16_refused_after_close.
+Print Assumptions C16_closed_silent.
 Print Assumptions C16_example_nonvacuous.
+Print Assumptions C16_example_close_pending.
